@@ -234,6 +234,33 @@ def earlier_object_scenarios(cls='Derivative', dim=None):
     return out
 
 
+def step_option_scenarios(cls='Derivative', dim=None):
+    """Step options given to the constructor as keywords (default generator): they stay in force when an option of the object
+    is changed and restored."""
+    out = []
+
+    def mk(first, second):
+        opts = dict(base_step=Poly.sym('h'), step_ratio=Poly.sym('r'), num_steps=5, step_nom=1)
+
+        def history(P):
+            I = P.interp
+            obj, x = P.build(cls, first, None if cls == 'Hessian' else 2, n=(1 if cls == 'Derivative' else None), step=None, dim=dim, **opts)
+            estimates(I, obj, x)
+            I.setattr(obj, 'method', second)
+            estimates(I, obj, x)
+            I.setattr(obj, 'method', first)
+            return obj, x
+
+        def fresh(P):
+            return P.build(cls, first, None if cls == 'Hessian' else 2, n=(1 if cls == 'Derivative' else None), step=None, dim=dim, **opts)
+        return history, fresh
+    for first, second in (('central', 'forward'), ('forward', 'central')):
+        h, f = mk(first, second)
+        out.append(Scenario('%s(%s, base_step=h, step_ratio=r, num_steps=5) ; call ; method=%s ; call ; method=%s ; call'
+                            % (cls, first, second, first), h, f, 'step options kept'))
+    return out
+
+
 def aborted_call_scenarios(cls='Derivative', dim=None):
     """A call is aborted by an exception raised inside the user function; the next call on the same object (and on a new
     object of the same class) must behave like a fresh one."""
